@@ -584,7 +584,9 @@ MANIFEST = {
              "no match without sides; annotated clips have tasks; start <= end; scores in [0,1]) and what a built object may "
              "store; MC_SchemaRel.tla transcribes the validators of soundevent.data step by step (before/after mode, list-vs-set "
              "duplicate tests, set comparisons, ge/le with NaN) and TLC proves accepted <=> Valid for every enumerated "
-             "arrangement and path (the as-found before-mode clip validator is kept as a control with TLC's counterexample); "
+             "arrangement -- including annotations / predictions that wrap one and the same sound event -- and path (the as-found "
+             "before-mode clip validator and a validator keyed on the wrapped sound event are kept as controls with TLC's "
+             "counterexamples); "
              "every case is then built through the constructor, model_validate, model_validate_json (numbers also as numeric "
              "strings) and a hand-written AOEF document loaded with io.load, and TLC validates ConstructIffValid, PathsAgree "
              "and StoredWithinBounds on what was built and stored. Bounded-exhaustive plus random larger clip evaluations."),
